@@ -34,9 +34,15 @@ def handle (toks : List String) : String :=
     | some (d, []) =>
       -- 1: class of calc_eq_spec (no included tax); 2: class of calc_eq_spec_included only
       -- (inDocI, weight docWeightI: prices including one tax category)
-      if GoblVerif.Calc.Err.inDocC d then s!"ok 1 {GoblVerif.Calc.Err.docWeight d}"
-      else if GoblVerif.Calc.Err.inDocI d then s!"ok 2 {GoblVerif.Calc.Err.docWeightI d}"
-      else "ok 0 0"
+      -- 4th field: the tight weight docWeightQ (a rational, decided_class_bound_tight) when inDocI
+      let tight : String :=
+        if GoblVerif.Calc.Err.inDocI d then
+          let q := GoblVerif.Calc.Err.docWeightQ d
+          s!"{q.num}/{q.den}"
+        else "-"
+      if GoblVerif.Calc.Err.inDocC d then s!"ok 1 {GoblVerif.Calc.Err.docWeight d} {tight}"
+      else if GoblVerif.Calc.Err.inDocI d then s!"ok 2 {GoblVerif.Calc.Err.docWeightI d} {tight}"
+      else "ok 0 0 -"
     | some (_, _) => "bad-trailing"
     | none => "bad-doc"
   | _ => "bad-op"
